@@ -160,7 +160,8 @@ def run(ctx):
                         sym(p), node=e.node, construct=f'{nm}({p}=...)')
     rc = ctx.func(Q + 'ComplexQuantizer._reset_cache')
     r, I = ctx.run(rc, no_inline=(Q + 'RealQuantizer._reset_cache',))
-    resets = [ast.unparse(e.data['recv_node']) if 'recv_node' in e.data else pretty(e.data.get('recv')) for e in I.events
+    # (receiver VALUES, not spellings: a loop over the two components is the same two resets)
+    resets = [pretty(e.data['recv']) if e.data.get('recv') is not None else ast.unparse(e.data['recv_node']) for e in I.events
               if e.kind == 'call' and e.data.get('name') in (Q + 'RealQuantizer._reset_cache', '._reset_cache')]
     ctx.ob('MUSTPASS', 'ComplexQuantizer._reset_cache resets both component quantisers', rc,
            len(resets) == 2 and len(set(resets)) == 2, {'resets': resets}, node=rc.node, construct='_reset_cache of components')
